@@ -1988,5 +1988,20 @@ def call_parser_function(
         )
         return ""
 
-    return add_newline_to_expansion(fn(ctx, fn_name, args, expander))
-    # return fn(ctx, fn_name, args, expander)
+    try:
+        ret = fn(ctx, fn_name, args, expander)
+    except Exception as e:
+        # Parser functions are total in MediaWiki: bad input (domain and
+        # overflow errors in #expr, missing arguments, huge numbers, unknown
+        # namespaces...) gives an in-band error, never an exception out of
+        # expand().
+        ctx.error(
+            "parser function {} failed on arguments {!r}: {}: {}".format(
+                fn_name, args, type(e).__name__, e
+            ),
+            sortid="parserfns/call_parser_function/exception",
+        )
+        return '<strong class="error">{}: {}</strong>'.format(
+            html.escape(fn_name), html.escape(type(e).__name__)
+        )
+    return add_newline_to_expansion(ret)
